@@ -125,6 +125,28 @@ fn cli_case(ctx: &Ctx, args: &[String], stdin: Option<&str>, fmt: &str, prefix: 
     r
 }
 
+/// the same command under the conditions in which tools start to decorate their output: colour-forcing environment variables
+/// and a pseudo terminal as stdout (`script -qec`; the terminal turns \n into \r\n, nothing else may differ). Returns a
+/// description of the first difference from `plain`.
+fn terminal_conditions_differ(args: &[String], plain: &[u8]) -> Option<String> {
+    let profiles: [&[(&str, &str)]; 7] = [&[("CLICOLOR_FORCE", "1")], &[("FORCE_COLOR", "1")], &[("FORCE_COLOR", "3"), ("COLORTERM", "truecolor")], &[("CLICOLOR", "1"), ("TERM", "xterm-256color"), ("COLORTERM", "truecolor")],
+        &[("CARGO_TERM_COLOR", "always"), ("CLICOLOR_FORCE", "yes")], &[("NO_COLOR", "1")], &[("TERM", "dumb"), ("CLICOLOR_FORCE", "1")]];
+    for env in profiles {
+        let o = zv::run_bin(args, None, env, None);
+        if o.stdout != plain { return Some(format!("stdout under {env:?} is {:?}, plainly {:?}", truncate(&o.stdout_str(), 120), String::from_utf8_lossy(plain))); }
+    }
+    // pseudo terminal
+    let quoted: Vec<String> = std::iter::once(proc::zerv_bin().to_string_lossy().to_string()).chain(args.iter().cloned()).map(|a| format!("'{}'", a.replace('\'', "'\\''"))).collect();
+    for term in ["xterm-256color", "dumb"] {
+        let mut env = proc::base_env();
+        env.retain(|(k, _)| k != "TERM"); env.push(("TERM".into(), term.into()));
+        let o = proc::run(&proc::Run { program: std::path::Path::new("/usr/bin/script"), args: vec!["-qec".into(), quoted.join(" "), "/dev/null".into()], stdin: None, env, cwd: None, timeout: std::time::Duration::from_secs(30) }).unwrap_or_else(|e| machinery_error(&format!("cannot spawn script: {e}")));
+        let got = o.stdout_str().replace("\r\n", "\n");
+        if got.as_bytes() != plain { return Some(format!("stdout on a pseudo terminal (TERM={term}) is {:?}, through a pipe {:?}", truncate(&got, 120), String::from_utf8_lossy(plain))); }
+    }
+    None
+}
+
 fn main() {
     let ctx = Ctx::from_args("C01", "model_checking");
     let _ = ctx.pinned_now();
@@ -264,7 +286,8 @@ fn main() {
                 let key = format!("[{name}] {}", args.join(" "));
                 if o.status != 0 { ctx.violation("git_source_failed", key, json!({"kind":"git","repo":name}), truncate(&o.stderr_str(), 200)); continue; }
                 if out.matches('\n').count() != 1 || !out.ends_with('\n') { ctx.violation("stdout_not_exactly_one_line", key, json!({"kind":"git","repo":name}), format!("stdout {:?}", truncate(&out, 200))); continue; }
-                if let Some(why) = malformed(fmt, out.trim_end_matches('\n')) { ctx.violation(&format!("{fmt}_malformed"), key, json!({"kind":"git","repo":name}), format!("emitted {out:?}: {why}")); }
+                if let Some(why) = malformed(fmt, out.trim_end_matches('\n')) { ctx.violation(&format!("{fmt}_malformed"), key.clone(), json!({"kind":"git","repo":name}), format!("emitted {out:?}: {why}")); }
+                if !verbose { s5.add("terminal_condition_runs", 9); if let Some(d) = terminal_conditions_differ(&args, &o.stdout) { ctx.violation("stdout_depends_on_terminal_conditions", key, json!({"kind":"git","repo":name}), d); } }
             }}}
             repo.remove();
         }
@@ -284,6 +307,7 @@ fn main() {
             let oe = zv::run_bin(args, stdin.as_deref(), &[("RUST_LOG", "trace")], None);
             if ov.stdout != o.stdout || oe.stdout != o.stdout { errs = Some(format!("stdout changes with the log level: plain {:?}, -v {:?}, RUST_LOG=trace {:?}", o.stdout_str(), truncate(&ov.stdout_str(), 120), truncate(&oe.stdout_str(), 120))); }
         }
+        if errs.is_none() && o.status == 0 && args.len() % 3 == 0 && stdin.is_none() { errs = terminal_conditions_differ(args, &o.stdout); }
         errs.map(|e| (format!("{args:?}"), e))
     }).collect();
     s5.add("process_conformance_cases", slice.len() as u64);
